@@ -13,7 +13,10 @@ UTF-8 bytes, the empty string is `-`):
   caps <node> <querynode> <cat> <type> <name> B<n> feat{n} E<k> ext{k} <form>
                                           → <advertised ver>|<ver of the answered info set, or not-found>
   config <node> <cat> <type> <name> B<n> feat{n} E<k> ext{k} <form>     (stateful: the configuration from now on) → ok
-  publish (fresh|derived)                 → ver of the emitted presence, or no-caps (empty capabilities node)
+  publish (fresh|derived)                 setClientPresence on a connected client → caps of the emitted presence
+  connect (fresh|derived)                 connectToServer: recompute + store, nothing sent → -
+  emit (session|disconnect|muc)           a site sending the stored presence → caps of the emitted presence
+                                          caps := <hex node>|<ver>  or  no-caps (empty capabilities node)
   query <node>                            → ver of the answered info set, or not-found
   info := I<n> (cat type lang name){n} F<m> feat{m} <form>
   form := X- | X<k> (key kind <c> value{c}){k}         kind := t (QString) | l (QStringList) | b (bool: 31 / 30)
@@ -168,17 +171,18 @@ def pConfig : P ClientCfg := fun ts =>
   | none => none
   | some (node, ts) => pCfg node ts
 
-def showOuts (outs : List (ClientOut String)) : String :=
-  match outs with
-  | [.presence (some v)] => v
-  | [.presence none] => "no-caps"
-  | [.answer (some v)] => v
-  | [.answer none] => "not-found"
-  | _ => "-"
-
 def strHex (s : Str) : String :=
   let bs := Qx.Utf8.encode (cps s)
   if bs.isEmpty then "-" else toHex bs
+
+def showOuts (outs : List (ClientOut String)) : String :=
+  match outs with
+  | [] => "-"
+  | [.presence (some (n, v))] => strHex n ++ "|" ++ v
+  | [.presence none] => "no-caps"
+  | [.answer (some v)] => v
+  | [.answer none] => "not-found"
+  | _ => "?"
 
 def stepLine (s : ClientSt String) (line : String) : ClientSt String × String :=
   match words line with
@@ -189,9 +193,20 @@ def stepLine (s : ClientSt String) (line : String) : ClientSt String × String :
     | _ => (s, "bad-op")
   | ["publish", how] =>
     if how = "fresh" ∨ how = "derived" then
-      let r := clientStep sha1b64 s (.publish (how = "derived"))
+      let r := clientStep sha1b64 s (.setClientPresence (how = "derived"))
       (r.1, showOuts r.2)
     else (s, "bad-op")
+  | ["connect", how] =>
+    if how = "fresh" ∨ how = "derived" then
+      let r := clientStep sha1b64 s (.connectToServer (how = "derived"))
+      (r.1, showOuts r.2)
+    else (s, "bad-op")
+  | ["emit", site] =>
+    let st : Option Site := if site = "session" then some .sessionStart else if site = "disconnect" then some .disconnect
+      else if site = "muc" then some .mucJoin else none
+    match st with
+    | some st => let r := clientStep sha1b64 s (.emitStored st); (r.1, showOuts r.2)
+    | none => (s, "bad-op")
   | ["query", n] =>
     match pStr [n] with
     | some (node, []) => let r := clientStep sha1b64 s (.query node); (r.1, showOuts r.2)
